@@ -100,7 +100,7 @@ def run(ctx):
                 ctx.ob('PEAK-CALL', key, ok, f.loc(c), 'unchunked peak update on (%s, %s, %s)' % (args[1], args[2], args[3]), None)
 
     ctx.rule('CALC-RESTORE', 'psf_calc_signal_max / psf_calc_max_all_channels: the normalisation state is read with SFC_GET_NORM_DOUBLE and written back with SFC_SET_NORM_DOUBLE on every path after it was '
-             'changed; the read position is read with sf_seek (0, SEEK_CUR) and restored with sf_seek (position, SEEK_SET) on every path after the rewind; every return before the first change is an early exit', floor=8)
+             'changed; the read position is read with sf_seek (0, SEEK_CUR | SFM_READ) and restored with sf_seek (position, SEEK_SET | SFM_READ) on every path after the rewind, no seek of the command touches the write pointer; every return before the first change is an early exit', floor=8)
     E = prog.enums
     for name in ('psf_calc_signal_max', 'psf_calc_max_all_channels'):
         f = prog.fn(name, 'command.c')
@@ -126,19 +126,27 @@ def run(ctx):
         ctx.ob('CALC-RESTORE', '%s:norm' % name, ok, f.loc(changes[0]) if changes else f.loc(f.body), 'normalisation flag %s' % ('restored on every path after it is changed' if ok else
                'NOT restored on a path to the exit: lines %s' % (f.cfg.block_lines(w) if w else '?')), None)
         seeks = list(f.calls('sf_seek'))
+        SFM_READ = E.get('SFM_READ', 0x10)
+        SAVE_W, BACK_W = 1 | SFM_READ, 0 | SFM_READ          # SEEK_CUR | SFM_READ , SEEK_SET | SFM_READ
+
+        def wh(c):
+            return f.unwrap(f.args(c)[2]).get('v')
         posv = set()
         for (lv, n, rhs) in assigned_lvalues(f):
             if rhs is not None and f.unwrap(rhs).get('callee') == 'sf_seek':
                 a = f.args(f.unwrap(rhs))
-                if f.unwrap(a[1]).get('v') == 0 and f.unwrap(a[2]).get('v') == 1:
+                if f.unwrap(a[1]).get('v') == 0 and f.unwrap(a[2]).get('v') == SAVE_W:
                     posv.add(lv)
-        back = [c for c in seeks if f.s(f.unwrap(f.args(c)[1])) in posv and f.unwrap(f.args(c)[2]).get('v') == 0]
-        away = [c for c in seeks if c not in back and not (f.unwrap(f.args(c)[1]).get('v') == 0 and f.unwrap(f.args(c)[2]).get('v') == 1)]
+        back = [c for c in seeks if f.s(f.unwrap(f.args(c)[1])) in posv and wh(c) == BACK_W]
+        away = [c for c in seeks if c not in back and not (f.unwrap(f.args(c)[1]).get('v') == 0 and wh(c) == SAVE_W)]
         ok = bool(back) and bool(posv) and bool(away)
         for c in away:
             r, w = f.cfg.must_pass(c, back)
             ok = ok and r
-        ctx.ob('CALC-RESTORE', '%s:position' % name, ok, f.loc(away[0]) if away else f.loc(f.body), 'read position %s' % ('saved and restored on every path after the rewind' if ok else 'NOT restored on every path'), None)
+        ctx.ob('CALC-RESTORE', '%s:position' % name, ok, f.loc(away[0]) if away else f.loc(f.body), 'read position %s' % ('saved (SEEK_CUR | SFM_READ) and restored (SEEK_SET | SFM_READ) on every path after the rewind' if ok else 'NOT saved with SEEK_CUR | SFM_READ and restored with SEEK_SET | SFM_READ on every path'), None)
+        plain = [c for c in seeks if wh(c) is None or not (wh(c) & SFM_READ) or (wh(c) & 0x20)]
+        ctx.ob('CALC-RESTORE', '%s:read-pointer-only' % name, not plain, f.loc(plain[0]) if plain else f.loc(f.body),
+               'every sf_seek of the command is qualified with SFM_READ' if not plain else 'sf_seek with an unqualified whence (%s): in SFM_RDWR mode it reads / moves the write pointer as well, the read position is not what is restored' % wh(plain[0]), None)
         # early exits: every return that is not dominated by the first change must be before it (trivially true) and every return dominated by a change is dominated by a restore
         first = changes[0] if changes else None
         bad = [r for r in f.cfg.returns() if first is not None and f.cfg.dominates(first, r) and not any(f.cfg.dominates(x, r) for x in restores)]
